@@ -594,6 +594,29 @@ def check_mean(ctx, rule, s: Summary, value, X, what: str, site_func: str, zero_
         ctx.bad(rule, file, site_func, f"mean over the scores of {show(Xs)[:60]}",
                 f"the {what} is averaged over {show(Xs)[:80]} while the objects reported next to it are {show(X)[:80]}", s.node.lineno)
         ok = False
+    # the same selection written out twice (guard and argument) differs in its loop names only: one spelling for all of them
+    from .c04 import alpha
+    from sa.sym import subst
+    asel = alpha(sel)
+    twins = {}
+    for c, v in alts:
+        for x in list(walk(c)) + list(walk(v)):
+            if x[0] == "comp" and x != sel and x not in twins and alpha(x) == asel:
+                twins[x] = sel
+    # `any(x.score is not None for x in X)` says "the selection is not empty" when the selection is X filtered by that test
+    nonempty_terms = []
+    if sel[0] == "comp" and len(sel[3]) == 1 and sel[3][0][2]:
+        lid0, it0, conds0 = sel[3][0]
+        for c, v in alts:
+            for x in walk(c):
+                if x[0] == "call" and x[1] == ("builtin", "any") and len(x[2]) == 1 and x[2][0][0] == "comp" and len(x[2][0][3]) == 1:
+                    g = x[2][0]
+                    lid1, it1, conds1 = g[3][0]
+                    if it1 == it0 and not conds1 and len(conds0) == 1 and subst(g[2], {("elem", lid1): ("elem", lid0)}) == conds0[0] and x not in nonempty_terms:
+                        nonempty_terms.append(x)
+    if twins:
+        alts = [(subst(c, twins), subst(v, twins)) for c, v in alts]
+        means = [subst(m, twins) for m in means]
     nan_terms = [x for c, v in alts for x in list(walk(c)) + list(walk(v))
                  if x[0] == "call" and x[1] in (("ext", "numpy.isnan"), ("ext", "math.isnan")) and any(y == sel for y in walk(x))]
     mean_forms = set()
@@ -603,6 +626,7 @@ def check_mean(ctx, rule, s: Summary, value, X, what: str, site_func: str, zero_
     # scenario 1: a non-empty selection (its mean is a number)
     env1 = {sel: (0.5,)}
     env1.update({x: False for x in nan_terms})
+    env1.update({x: True for x in nonempty_terms})
     live1 = [(c, v) for c, v in alts if truth(peval(c, env1)) is not False]
     und1 = [(c, v) for c, v in live1 if truth(peval(c, env1)) is None]
     if und1:
@@ -617,6 +641,7 @@ def check_mean(ctx, rule, s: Summary, value, X, what: str, site_func: str, zero_
     # scenario 2: the empty selection (np.mean([]) is NaN)
     env2 = {sel: ()}
     env2.update({x: True for x in nan_terms})
+    env2.update({x: False for x in nonempty_terms})
     live2 = [(c, v) for c, v in alts if truth(peval(c, env2)) is not False]
     und2 = [(c, v) for c, v in live2 if truth(peval(c, env2)) is None]
     if und2:
